@@ -114,9 +114,9 @@ func (g *G) genType(c *objCase, o genOpts, depth int) *TD {
 		return g.genStruct(c, o, depth)
 	case pick == 18:
 		if o.transforms {
-			kinds := []int{10, 11, 13, 14}
+			kinds := []int{10, 11, 13, 14, 17, 17}
 			if !o.jsonSafe {
-				kinds = append(kinds, 12)
+				kinds = append(kinds, 12, 19)
 			}
 			return c.zooTransform(kinds[g.intn(len(kinds))], o)
 		}
@@ -141,10 +141,16 @@ func (c *objCase) zooTransform(id int, o genOpts) *TD {
 	if c.hasEntry(t) {
 		return t
 	}
-	kindOf := map[int]int{10: 1, 11: 2, 12: 3, 13: 4, 14: 5, 16: 6}
-	wireOf := map[int]string{10: "s", 11: "s", 12: "x", 13: "(sl i64)", 14: "(st 15)", 16: "s"}
+	kindOf := map[int]int{10: 1, 11: 2, 12: 3, 13: 4, 14: 5, 16: 6, 17: 7, 19: 8}
+	wireOf := map[int]string{10: "s", 11: "s", 12: "x", 13: "(sl i64)", 14: "(st 15)", 16: "s", 17: "(st 18)", 19: "x"}
 	ad := &AD{t: t, kind: "tr", trk: kindOf[id], wire: c.env.mustParseType(wireOf[id])}
 	c.atl.entries = append(c.atl.entries, ad)
+	if id == 17 { // wire struct with omitempty fields: omitted fields must not leak between sibling values
+		w := c.env.addZoo(18)
+		if !c.hasEntry(w) {
+			c.atl.entries = append(c.atl.entries, &AD{t: w, kind: "smap", flds: []fldD{{name: "k", route: []int{0}, t: w.field[0], omit: true}, {name: "n", route: []int{1}, t: w.field[1], omit: true}}})
+		}
+	}
 	if id == 14 { // the wire struct needs its own struct map
 		w := c.env.addZoo(15)
 		if !c.hasEntry(w) {
@@ -472,6 +478,11 @@ func (g *G) genValue(c *objCase, t *TD, o genOpts, depth int) reflect.Value {
 			v.Set(g.genValue(c, st, o, depth+1))
 		}
 	case "st":
+		if tt.n == 17 {
+			v.Field(0).SetString([]string{"", "", "tip", "usd"}[g.intn(4)])
+			v.Field(1).SetInt([]int64{0, 0, 7, -3}[g.intn(4)])
+			return v
+		}
 		if tt.n == 11 || tt.n == 16 { // transform sources: first component must not contain the separator
 			v.Field(0).SetString([]string{"", "a", "left", "é"}[g.intn(4)])
 			v.Field(1).SetString(g.jsonSafeStr())
